@@ -51,6 +51,9 @@ type node struct {
 type witness struct {
 	Root       []node `json:"root"`
 	WorkingDir string `json:"working_dir,omitempty"`
+	// ViaChangeDir: the view is made with New(tree, ".").ChangeDir(working dir) (as src/remote does for output
+	// directories) instead of New(tree, working dir).
+	ViaChangeDir bool `json:"via_change_dir,omitempty"`
 }
 
 type cas map[digest.Digest][]byte
@@ -575,9 +578,35 @@ func checkTree(w witness, openLoops bool) []violation {
 			}
 		}
 	}
-	c := &checker{m: newModel(view), fsys: rfs.New(store, tree, wd), seen: map[string]bool{}}
+	fsys := rfs.New(store, tree, wd)
+	if w.ViaChangeDir {
+		fsys = rfs.New(store, tree, ".").ChangeDir(wd)
+	}
+	c := &checker{m: newModel(view), fsys: fsys, seen: map[string]bool{}}
 	c.run(openLoops)
 	return c.vs
+}
+
+// changeDirClasses: a view made by ChangeDir must behave like the view made by New with the same working directory; what it
+// does differently gets a class of its own (what both do is reported under the plain class, once).
+func changeDirClasses(w witness, vs []violation, openLoops bool) []violation {
+	if !w.ViaChangeDir {
+		return vs
+	}
+	plain := w
+	plain.ViaChangeDir = false
+	has := map[string]bool{}
+	for _, v := range checkTree(plain, openLoops) {
+		has[v.Class] = true
+	}
+	var out []violation
+	for _, v := range vs {
+		if !has[v.Class] {
+			v.Class += ":only-in-a-view-made-by-ChangeDir"
+			out = append(out, v)
+		}
+	}
+	return out
 }
 
 // leavesWD reports whether some symlink below wd points outside of it; such trees are not viewed through a working
@@ -918,7 +947,7 @@ func main() {
 				report(v.Class, v.Detail)
 			}
 		} else {
-			for _, v := range checkTree(w, true) {
+			for _, v := range changeDirClasses(w, checkTree(w, true), true) {
 				report(v.Class, v.Detail)
 			}
 		}
@@ -1002,13 +1031,21 @@ func main() {
 						loops = append(loops, int(i))
 						lmu.Unlock()
 					}
-					vs := checkTree(w, !loop)
-					if len(vs) > 0 {
-						if again := checkTree(w, !loop); classesOf(again) != classesOf(vs) {
-							lib.Fatal("HARNESS-NONDETERMINISM %+v: %s then %s", w, classesOf(vs), classesOf(again))
-						}
-						for _, v := range vs {
-							fnd.add(v.Class, idxBase+i, w, v.Detail)
+					variants := []witness{w}
+					if sp.budget <= 2 || sp.wd {
+						w2 := w
+						w2.ViaChangeDir = true
+						variants = append(variants, w2)
+					}
+					for _, w := range variants {
+						vs := checkTree(w, !loop)
+						if len(vs) > 0 {
+							if again := checkTree(w, !loop); classesOf(again) != classesOf(vs) {
+								lib.Fatal("HARNESS-NONDETERMINISM %+v: %s then %s", w, classesOf(vs), classesOf(again))
+							}
+							for _, v := range changeDirClasses(w, vs, !loop) {
+								fnd.add(v.Class, idxBase+i, w, v.Detail)
+							}
 						}
 					}
 				}
